@@ -256,6 +256,7 @@ Proof.
       - rewrite pp_start_stop, pp_start_push. assumption. }
     destruct shorthand; [|discriminate].
     destruct (negb (index_len (rest s (pos t3)) =? 0)%nat); [|discriminate].
+    destruct (index_too_long _ _); [discriminate|].
     eapply IH in H; [| unfold sane; st_simpl; lia | | | ].
     - destruct H as (B1 & B2 & B3). repeat split; try assumption.
       rewrite B3. apply last_start. rewrite pp_start_stop, pp_start_push. reflexivity.
@@ -310,7 +311,8 @@ Proof.
       destruct l; discriminate.
     - rewrite pp_start_stop, pp_start_push. assumption. }
   destruct (negb (index_len (rest s (pos t3)) =? 0)%nat).
-  { apply bind_ok in H as (t5 & Hw5 & H).
+  { destruct (index_too_long _ _); [discriminate|].
+    apply bind_ok in H as (t5 & Hw5 & H).
     pose proof (rspec_inv _ _ _ _ _ (ignore_ws_spec s (set_both t3 (pos t3 + index_len (rest s (pos t3)))%nat) 0 0
                   ltac:(unfold sane; st_simpl; lia)) Hw5)
       as ((B0 & B1) & B2 & B3 & B4). st_simpl.
@@ -390,6 +392,7 @@ Proof.
     { eapply Hrec in H; [exact H|unfold sane; st_simpl; lia|st_simpl; apply pp_z_stop]. }
     destruct shorthand; [|discriminate].
     destruct (negb (index_len (rest s (pos t3)) =? 0)%nat); [|discriminate].
+    destruct (index_too_long _ _); [discriminate|].
     eapply Hrec in H; [exact H|unfold sane; st_simpl; lia|st_simpl; apply pp_z_stop]. }
   destruct (N.eqb c 93) eqn:E93.
   { destruct below as [|parent below'].
@@ -419,7 +422,8 @@ Proof.
       as (((C0 & C1) & C2 & C3 & C4) & C5).
     eapply Hrec in H; [exact H|unfold sane; lia|rewrite pp_z_stop, C0; reflexivity]. }
   destruct (negb (index_len (rest s (pos t3)) =? 0)%nat).
-  { apply bind_ok in H as (t5 & Hw5 & H).
+  { destruct (index_too_long _ _); [discriminate|].
+    apply bind_ok in H as (t5 & Hw5 & H).
     pose proof (rspec_inv _ _ _ _ _ (ignore_ws_spec s (set_both t3 (pos t3 + index_len (rest s (pos t3)))%nat) 0 0
                   ltac:(unfold sane; st_simpl; lia)) Hw5)
       as ((B0 & B1) & B2 & B3 & B4). st_simpl.
